@@ -368,7 +368,10 @@ fn run_pipeline_case(r: &Rig, m: &Model, s: St, a: Ac) -> Option<(String, String
     if got_hooks != exp_hooks {
         return Some(("O-C12-do_effect-trace".into(), format!("do_effect hooks {:?}", exp_hooks), format!("do_effect hooks {:?}", got_hooks)));
     }
-    if got_handed != exp_handed || !effects.is_empty() {
+    // C11 says exactly once, not in which order: compare as multisets
+    let count = |v: &Vec<Ev>, k: &Ev| v.iter().filter(|e| *e == k).count();
+    let same_ms = got_handed.len() == exp_handed.len() && count(&got_handed, &Ev::Task) == count(&exp_handed, &Ev::Task);
+    if !same_ms || !effects.is_empty() {
         return Some(("O-C11-do_effect-spawn".into(), format!("handed to the dispatcher {:?}, 0 left", exp_handed), format!("handed to the dispatcher {:?}, {} left", got_handed, effects.len())));
     }
     // ---- do_notify
